@@ -335,6 +335,35 @@ func main() {
 		emitList("gen_nfd", "(N * list N)", nfd)
 		emitList("gen_ccc", "(N * N * N)", ccc)
 		emitList("gen_comp", "(N * N * N)", comp)
+		// Stream-Safe Text Process as x/text applies it: per code point, the number of leading and of trailing
+		// "non-starters" of its compatibility decomposition, where a rune counts as a non-starter when it has a
+		// non-zero class or combines backwards (maketables.go computeNonStarterCounts); Hangul syllables are left
+		// to the model (2 trailing, 1 without a final consonant)
+		var ssl []string
+		nonStarter := func(r rune) bool { return !norm.NFKC.PropertiesString(string(r)).BoundaryBefore() }
+		for cp := 0; cp <= 0x10FFFF; cp++ {
+			if (cp >= 0xD800 && cp <= 0xDFFF) || (cp >= 0xAC00 && cp <= 0xD7A3) {
+				continue
+			}
+			rs := []rune(norm.NFKD.String(string(rune(cp))))
+			lead, trail := 0, 0
+			for _, r := range rs {
+				if !nonStarter(r) {
+					break
+				}
+				lead++
+			}
+			for i := len(rs) - 1; i >= 0; i-- {
+				if !nonStarter(rs[i]) {
+					break
+				}
+				trail++
+			}
+			if lead != 0 || trail != 0 {
+				ssl = append(ssl, fmt.Sprintf("(%d,%d,%d)", cp, lead, trail))
+			}
+		}
+		emitList("gen_ss", "(N * N * N)", ssl)
 	case "nfc":
 		// reference: NFC of each input text (one JSON case per line: {id, cps})
 		sc := bufio.NewScanner(os.Stdin)
